@@ -22,7 +22,7 @@ mkdir -p $v
 rsync -a --exclude .git --exclude '.build/work' --exclude '.build/kani-*' --exclude '.build/replay-*' --exclude .build/smt --exclude .build/mir --exclude '.build/logs' --exclude 'evidence/*' /verif/ $v/
 mkdir -p $v/.build/work; [ -d /verif/.build/work/$chk ] && rsync -a --exclude smt --exclude logs /verif/.build/work/$chk $v/.build/work/
 mkdir -p $v/evidence
-unshare -m bash -c "mount --bind $r /repo && mount --bind $v /verif && cd /verif && VERIF_SCRATCH=/tmp/mx/replay-$tag VERIF_TIER=$tier timeout 3000 ./check $chk --tier $tier" > $mx/results/$tag.out 2>&1
+unshare -m bash -c "mount --bind $r /repo && mount --bind $v /verif && cd /verif && ulimit -v 40000000 && VERIF_SCRATCH=/tmp/mx/replay-$tag VERIF_TIER=$tier timeout 3000 ./check $chk --tier $tier" > $mx/results/$tag.out 2>&1
 rc=$?
 echo $rc > $mx/results/$tag.rc
 cp $v/evidence/$chk.json $mx/results/$tag.json 2>/dev/null
